@@ -601,12 +601,12 @@ Lemma denote_steps_join : forall f k rs rd post rows,
 Proof. reflexivity. Qed.
 
 Lemma classify_ew : forall t c st t' c',
-    elementwise_step st = true -> classify_step t c st = Some (t', c') ->
+    elementwise_step st = true -> classify_step_flat t c st = Some (t', c') ->
     step_type t st = Some t' /\ c' = c.
 Proof.
   intros t c st t' c' Hew H.
   destruct st as [f|p|g|f| |f|p|f|p|f|n b|n b| |cb|cb|cb lf fo| | |k| |k rs rd|sd h|sd q|prs dflt|f p|dk|f];
-    try discriminate Hew; cbn [classify_step step_type] in *;
+    try discriminate Hew; cbn [classify_step_flat step_type] in *;
     try (inversion H; subst; split; reflexivity);
     try (destruct (Nat.eqb t TKV); [inversion H; subst; split; reflexivity|discriminate H]);
     try (destruct (Nat.eqb t TKW); [inversion H; subst; split; reflexivity|discriminate H]);
@@ -617,13 +617,157 @@ Proof.
     destruct (Nat.eqb t TKV); [inversion H; subst; split; reflexivity|discriminate H].
 Qed.
 
-Lemma cstep_cls : forall s st t c t' c',
-    classify_step t c st = Some (t', c') -> cs_tag s = t ->
+(* ---- steps on class-D rows: they do not look at the order inside a group ---- *)
+Lemma zsum_perm : forall l l', Permutation l l' -> zsum l = zsum l'.
+Proof.
+  intros l l' H. unfold zsum. generalize 0%Z.
+  induction H as [|x l l' H IH|x y l|l1 l2 l3 H1 IH1 H2 IH2]; intros a; cbn [fold_left].
+  - reflexivity.
+  - apply IH.
+  - f_equal. destruct x, y; lia.
+  - rewrite IH1. apply IH2.
+Qed.
+
+Lemma ikey_row_inv : forall x y, row_perm x y -> ikey x = ikey y.
+Proof.
+  intros x y [Heq|(k & l & l' & Hx & Hy & Hp)]; [subst y; reflexivity|]. subst x y. reflexivity.
+Qed.
+
+Lemma pf_row_inv : forall p x y, row_perm x y -> pf p x = pf p y.
+Proof.
+  intros p x y H. induction p as [| |m r|c|q IH]; cbn [pf]; try reflexivity.
+  - rewrite (ikey_row_inv x y H). reflexivity.
+  - rewrite (ikey_row_inv x y H). reflexivity.
+  - rewrite IH. reflexivity.
+Qed.
+
+Lemma ef_list_inv : forall f l l',
+    efun_list_inv f = true -> Permutation l l' -> ef f (VList l) = ef f (VList l').
+Proof.
+  intros f l l' Hf Hp.
+  assert (Hsum : ef FSum (VList l) = ef FSum (VList l'))
+    by (cbn [ef]; rewrite (zsum_perm l l' Hp); reflexivity).
+  assert (Hlen : ef FLen (VList l) = ef FLen (VList l'))
+    by (cbn [ef]; rewrite (Permutation_length Hp); reflexivity).
+  destruct f as [| | | | | | | | | | | |f1 f2]; try discriminate Hf; try assumption.
+  destruct f1; try discriminate Hf; cbn [ef] in *; congruence.
+Qed.
+
+Lemma ef_row_inv : forall f x y, efun_row_inv f = true -> row_perm x y -> ef f x = ef f y.
+Proof.
+  intros f x y Hf [Heq|(k & l & l' & Hx & Hy & Hp)]; [subst y; reflexivity|]. subst x y.
+  destruct f as [| | | | | | | | | | | |f1 f2]; try discriminate Hf; [reflexivity|].
+  destruct f1; try discriminate Hf; cbn [ef vfst vsnd]; [reflexivity|].
+  cbn [efun_row_inv] in Hf. apply ef_list_inv; assumption.
+Qed.
+
+Lemma op_map_dd : forall i o f uid,
+    (forall x y, row_perm x y -> row_perm (f x) (f y)) -> ew_dd (op_map i o f uid).
+Proof.
+  intros i o f uid H. apply (ew_dd_rowwise _ (fun x => [f x])).
+  - intros l. cbn [op_map mk_op op_fn]. rewrite <- map_as_flat_map. reflexivity.
+  - intros x y Hxy. constructor; [apply H; exact Hxy|constructor].
+Qed.
+
+Lemma op_map_dp : forall i o f uid,
+    (forall x y, row_perm x y -> f x = f y) -> ew_dp (op_map i o f uid).
+Proof.
+  intros i o f uid H. exists (fun x => [f x]). split.
+  - intros l. cbn [op_map mk_op op_fn]. rewrite <- map_as_flat_map. reflexivity.
+  - intros x y Hxy. rewrite (H x y Hxy). apply Permutation_refl.
+Qed.
+
+Lemma op_map_values_dp : forall i o f uid,
+    (forall l l', Permutation l l' -> f (VList l) = f (VList l')) ->
+    ew_dp (op_map_values i o f uid).
+Proof.
+  intros i o f uid H. exists (fun x => [on_snd f x]). split.
+  - intros l. cbn [op_map_values mk_op op_fn]. rewrite <- map_as_flat_map. reflexivity.
+  - intros x y [Heq|(k & l & l' & Hx & Hy & Hp)]; [subst y; apply Permutation_refl|].
+    subst x y. cbn [on_snd]. rewrite (H l l' Hp). apply Permutation_refl.
+Qed.
+
+Lemma op_filter_dd : forall i p uid,
+    (forall x y, row_perm x y -> p x = p y) -> ew_dd (op_filter i p uid).
+Proof.
+  intros i p uid H. apply (ew_dd_rowwise _ (fun x => if p x then [x] else [])).
+  - intros l. cbn [op_filter mk_op op_fn]. rewrite <- filter_as_flat_map. reflexivity.
+  - intros x y Hxy. rewrite (H x y Hxy).
+    destruct (p y); constructor; [exact Hxy|constructor].
+Qed.
+
+Lemma op_flat_map_dd : forall i o g uid,
+    (forall x y, row_perm x y -> Forall2 row_perm (g x) (g y)) -> ew_dd (op_flat_map i o g uid).
+Proof.
+  intros i o g uid H. apply (ew_dd_rowwise _ g); [|exact H]. intros l. reflexivity.
+Qed.
+
+Lemma op_flat_map_dp : forall i o g uid,
+    (forall x y, row_perm x y -> Permutation (g x) (g y)) -> ew_dp (op_flat_map i o g uid).
+Proof. intros i o g uid H. exists g. split; [intros l; reflexivity|exact H]. Qed.
+
+Lemma gf_row_dp : forall g x y,
+    (match g with GRepeat _ => False | _ => True end) -> row_perm x y ->
+    Permutation (gf g x) (gf g y).
+Proof.
+  intros g x y Hg Hxy. destruct g as [n|m| |]; try contradiction; cbn [gf].
+  - rewrite (ikey_row_inv x y Hxy). apply Permutation_refl.
+  - destruct Hxy as [Heq|(k & l & l' & Hx & Hy & Hp)]; [subst y; apply Permutation_refl|].
+    subst x y. apply Permutation_map. exact Hp.
+  - apply Permutation_refl.
+Qed.
+
+Lemma gf_repeat_dd : forall n x y, row_perm x y ->
+    Forall2 row_perm (gf (GRepeat n) x) (gf (GRepeat n) y).
+Proof.
+  intros n x y Hxy. cbn [gf]. induction n as [|n IH]; cbn [repeat]; constructor; assumption.
+Qed.
+
+Lemma classify_d_ew : forall t st t' c',
+    elementwise_step st = true -> classify_step_d t st = Some (t', c') ->
+    step_type t st = Some t' /\
+    match c' with
+    | D => forall uid, ew_dd (cop t uid st)
+    | P => forall uid, ew_dp (cop t uid st)
+    | E => False
+    end.
+Proof.
+  intros t st t' c' Hew H.
+  destruct st as [f|p|g|f| |f|p|f|p|f|n b|n b| |cb|cb|cb lf fo| | |k| |k rs rd|sd h|sd q|prs dflt|f p|dk|f];
+    try discriminate Hew; cbn [classify_step_d step_type] in *; try discriminate H.
+  - (* SMap *)
+    destruct (efun_row_inv f) eqn:Ef; [|discriminate H]. inversion H; subst.
+    split; [reflexivity|]. intros uid. cbn [cop]. apply op_map_dp. intros x y. apply ef_row_inv. exact Ef.
+  - (* SFilter *)
+    inversion H; subst. split; [reflexivity|]. intros uid. cbn [cop]. apply op_filter_dd.
+    intros x y. apply pf_row_inv.
+  - (* SFlatMap *)
+    destruct g as [n|m| |]; inversion H; subst; (split; [reflexivity|]); intros uid; cbn [cop].
+    + apply op_flat_map_dd. intros x y. apply gf_repeat_dd.
+    + apply op_flat_map_dp. intros x y. apply gf_row_dp. exact I.
+    + apply op_flat_map_dp. intros x y. apply gf_row_dp. exact I.
+    + apply op_flat_map_dp. intros x y. apply gf_row_dp. exact I.
+  - (* SUnkey *)
+    inversion H; subst. split; [reflexivity|]. intros uid. cbn [cop]. apply op_map_dd. auto.
+  - (* SMapValues *)
+    destruct (Nat.eqb t TKV); [|discriminate H].
+    destruct (efun_list_inv f) eqn:Ef; [|discriminate H]. cbn [andb] in H. inversion H; subst.
+    split; [reflexivity|]. intros uid. cbn [cop]. apply op_map_values_dp.
+    intros l l'. apply ef_list_inv. exact Ef.
+  - (* SGroupValuesToList *)
+    destruct (Nat.eqb t TKG); [|discriminate H]. inversion H; subst.
+    split; [reflexivity|]. intros uid. cbn [cop]. apply op_map_dd. auto.
+  - (* SDebug *)
+    inversion H; subst. split; [reflexivity|]. intros uid. cbn [cop]. apply op_map_dd. auto.
+Qed.
+
+Lemma cstep_cls_flat : forall s st t c t' c',
+    flat c -> classify_step_flat t c st = Some (t', c') -> cs_tag s = t ->
     exists b, cs_chain (cstep s st) = cs_chain s ++ [NB b] /\ node_cls t c b t' c' /\
               cs_tag (cstep s st) = t' /\ tkv_node b /\
               (forall rows, dnode b rows = dstep st rows).
 Proof.
-  intros s st t c t' c' H Ht.
+  intros s st t c t' c' Hfl H Ht.
   destruct (elementwise_step st) eqn:Hew.
   - (* element-wise step: one Stateless node with one operator *)
     destruct (classify_ew t c st t' c' Hew H) as [Hty ->].
@@ -632,26 +776,27 @@ Proof.
     unfold cstep. rewrite (compile_steps_ew_step 0 st [] s Hew). cbn [compile_steps cs_chain cs_tag].
     rewrite Ht. split; [reflexivity|]. split; [|split; [exact Hout|split; [exact I|]]].
     + apply nc_stateless.
+      * exact Hfl.
       * constructor; [apply cop_ew; exact Hew|constructor].
       * cbn [tags_ok]. rewrite Hin, Nat.eqb_refl, Hout. reflexivity.
     + intros rows. cbn [dnode]. unfold sem_ops. cbn [fold_left]. unfold step_list.
       rewrite (cop_fn _ _ st rows Hew). reflexivity.
   - destruct st as [f|p|g|f| |f|p|f|p|f|n b|n b| |cb|cb|cb lf fo| | |k| |k rs rd|sd h|sd q|prs dflt|f p|dk|f];
-      try discriminate Hew; cbn [classify_step] in H; try discriminate H.
+      try discriminate Hew; cbn [classify_step_flat] in H; try discriminate H.
     + (* SMapBatches with a non element-wise function *)
       destruct b; try discriminate Hew; discriminate H.
     + destruct b; try discriminate Hew; discriminate H.
     + (* SGroupByKey *)
-      destruct c; [|discriminate H].
       destruct (Nat.eqb t TKV) eqn:E; [|discriminate H]. apply Nat.eqb_eq in E.
       inversion H; subst. eexists. unfold cstep. cbn [compile_steps push_node cs_chain cs_tag].
-      split; [reflexivity|]. split; [apply nc_gbk|].
+      split; [reflexivity|].
+      split; [destruct c; [apply nc_gbk|apply nc_gbk_p|contradiction]|].
       split; [reflexivity|split; [reflexivity|intros rows; reflexivity]].
     + (* SCombineValues *)
       destruct (Nat.eqb t TKV) eqn:E; [|discriminate H]. apply Nat.eqb_eq in E.
       destruct (cid_functional cb) eqn:Ef; [|discriminate H]. cbn [andb] in H.
       inversion H; subst. eexists. unfold cstep. cbn [compile_steps push_node cs_chain cs_tag].
-      split; [reflexivity|]. split; [apply nc_cv_pairs; apply cid_lawful; exact Ef|].
+      split; [reflexivity|]. split; [apply nc_cv_pairs; [exact Hfl|apply cid_lawful; exact Ef]|].
       split; [reflexivity|split; [reflexivity|intros rows; reflexivity]].
     + (* SCombineValuesLifted *)
       destruct (Nat.eqb t TKG) eqn:E; [|discriminate H]. apply Nat.eqb_eq in E.
@@ -662,17 +807,60 @@ Proof.
     + (* SCombineGlobally *)
       destruct (cid_functional cb) eqn:Ef; [|discriminate H].
       inversion H; subst. eexists. unfold cstep. cbn [compile_steps push_node cs_chain cs_tag].
-      split; [reflexivity|]. split; [apply nc_cg; apply cid_lawful; exact Ef|].
+      split; [reflexivity|]. split; [apply nc_cg; [exact Hfl|apply cid_lawful; exact Ef]|].
       split; [reflexivity|split; [exact I|intros rows; reflexivity]].
     + (* STopKPerKey *)
       destruct (Nat.eqb t TKV) eqn:E; [|discriminate H]. apply Nat.eqb_eq in E.
       inversion H; subst. eexists. unfold cstep. cbn [compile_steps push_node cs_chain cs_tag].
-      split; [reflexivity|]. split; [apply nc_cv_pairs; apply topk_lawful|].
+      split; [reflexivity|]. split; [apply nc_cv_pairs; [exact Hfl|apply topk_lawful]|].
       split; [reflexivity|split; [reflexivity|intros rows; reflexivity]].
 Qed.
 
+Lemma cstep_cls_d : forall s st t t' c',
+    classify_step_d t st = Some (t', c') -> cs_tag s = t ->
+    exists b, cs_chain (cstep s st) = cs_chain s ++ [NB b] /\ node_cls t D b t' c' /\
+              cs_tag (cstep s st) = t' /\ tkv_node b /\
+              (forall rows, dnode b rows = dstep st rows).
+Proof.
+  intros s st t t' c' H Ht.
+  destruct (elementwise_step st) eqn:Hew.
+  - destruct (classify_d_ew t st t' c' Hew H) as [Hty Hop].
+    destruct (cop_tags t (cs_uid s) st t' Hew Hty) as [Hin Hout].
+    exists (BStateless [cop (cs_tag s) (cs_uid s) st]).
+    unfold cstep. rewrite (compile_steps_ew_step 0 st [] s Hew). cbn [compile_steps cs_chain cs_tag].
+    rewrite Ht. split; [reflexivity|]. split; [|split; [exact Hout|split; [exact I|]]].
+    + assert (Htags : tags_ok t [cop t (cs_uid s) st] = Some t')
+        by (cbn [tags_ok]; rewrite Hin, Nat.eqb_refl, Hout; reflexivity).
+      destruct c'; [contradiction| |].
+      * apply (nc_stateless_dp t [] (cop t (cs_uid s) st) [] t');
+          [constructor|apply Hop|constructor|exact Htags].
+      * apply nc_stateless_dd; [constructor; [apply Hop|constructor]|exact Htags].
+    + intros rows. cbn [dnode]. unfold sem_ops. cbn [fold_left]. unfold step_list.
+      rewrite (cop_fn _ _ st rows Hew). reflexivity.
+  - destruct st as [f|p|g|f| |f|p|f|p|f|n b|n b| |cb|cb|cb lf fo| | |k| |k rs rd|sd h|sd q|prs dflt|f p|dk|f];
+      try discriminate Hew; cbn [classify_step_d] in H; try discriminate H.
+    (* SCombineValuesLifted *)
+    destruct (Nat.eqb t TKG) eqn:E; [|discriminate H]. apply Nat.eqb_eq in E.
+    destruct (cid_functional cb) eqn:Ef; [|discriminate H]. cbn [andb] in H.
+    inversion H; subst. eexists. unfold cstep. cbn [compile_steps push_node cs_chain cs_tag].
+    split; [reflexivity|]. split; [apply nc_cv_groups; apply cid_lawful; exact Ef|].
+    split; [reflexivity|split; [reflexivity|intros rows; reflexivity]].
+Qed.
+
+Lemma cstep_cls : forall s st t c t' c',
+    classify_step t c st = Some (t', c') -> cs_tag s = t ->
+    exists b, cs_chain (cstep s st) = cs_chain s ++ [NB b] /\ node_cls t c b t' c' /\
+              cs_tag (cstep s st) = t' /\ tkv_node b /\
+              (forall rows, dnode b rows = dstep st rows).
+Proof.
+  intros s st t c t' c' H Ht. destruct c; cbn [classify_step] in H.
+  - apply cstep_cls_flat; [exact I|exact H|exact Ht].
+  - apply cstep_cls_flat; [exact I|exact H|exact Ht].
+  - apply cstep_cls_d; assumption.
+Qed.
+
 Lemma classify_step_nojoin : forall t c st x, classify_step t c st = Some x -> nojoin st.
-Proof. intros t c st x H. destruct st; try exact I. discriminate H. Qed.
+Proof. intros t c st x H. destruct st; try exact I. destruct c; discriminate H. Qed.
 
 Lemma classify_steps_nojoin : forall steps t c x,
     classify_steps t c steps = Some x -> Forall nojoin steps.
@@ -789,6 +977,11 @@ Proof.
     destruct (Nat.eqb tl TKV) eqn:Etl; [|discriminate H]. apply Nat.eqb_eq in Etl. subst tl.
     destruct (Nat.eqb tr TKV) eqn:Etr; [|discriminate H]. apply Nat.eqb_eq in Etr. subst tr.
     cbn [andb] in H.
+    assert (Hfll : flat cl) by (destruct cl; [exact I|exact I|discriminate H]).
+    assert (Hflr : flat cr) by (destruct cl; destruct cr; try exact I; discriminate H).
+    assert (H' : classify_steps TKV P post = Some (t, c))
+      by (destruct cl; destruct cr; try exact H; contradiction).
+    clear H. rename H' into H.
     pose proof (classify_steps_nojoin _ _ _ _ Hpre) as Hnj_pre.
     pose proof (classify_steps_nojoin _ _ _ _ Hrs) as Hnj_rs.
     pose proof (classify_steps_nojoin _ _ _ _ H) as Hnj_post.
@@ -832,10 +1025,11 @@ Proof.
     + apply pc_join.
       * apply vec_source_coherent.
       * exists (src_source s), bl, cl. split; [reflexivity|]. split; [apply src_source_coherent|].
-        rewrite src_source_tag. exact Hclsl.
+        rewrite src_source_tag. split; [exact Hclsl|exact Hfll].
       * exists (vec_source TKV rd), br, cr. split; [reflexivity|].
-        split; [apply vec_source_coherent|exact Hclsr].
+        split; [apply vec_source_coherent|]. split; [exact Hclsr|exact Hflr].
       * eapply cc_cons; [|exact Hclsp]. apply nc_stateless.
+        -- exact I.
         -- constructor; [apply ew_map|constructor].
         -- cbn [tags_ok op_map mk_op op_in op_out]. rewrite Nat.eqb_refl. reflexivity.
     + constructor; [exact I|]. constructor; [exact I|].
@@ -866,7 +1060,8 @@ Inductive prog_shape (s : src) (steps : list step) (t : tag) (c : cls) : Prop :=
       :: NCoGroup (SB (BSource (src_source s)) :: map SB bl)
                   (SB (BSource (vec_source TKV rd)) :: map SB br) k TKV TKV (join_tag k)
       :: map NB (BStateless [op_map (join_tag k) TKV join_norm u] :: bp) ->
-    chain_cls (src_tag s) E bl TKV cl -> chain_cls TKV E br TKV cr -> chain_cls TKV P bp t c ->
+    chain_cls (src_tag s) E bl TKV cl -> chain_cls TKV E br TKV cr -> flat cl -> flat cr ->
+    chain_cls TKV P bp t c ->
     denote s steps = dchain bp (d_join k (dchain bl (src_data s)) (dchain br rd)) ->
     prog_shape s steps t c.
 
@@ -884,6 +1079,11 @@ Proof.
     destruct (Nat.eqb tl TKV) eqn:Etl; [|discriminate H]. apply Nat.eqb_eq in Etl. subst tl.
     destruct (Nat.eqb tr TKV) eqn:Etr; [|discriminate H]. apply Nat.eqb_eq in Etr. subst tr.
     cbn [andb] in H.
+    assert (Hfll : flat cl) by (destruct cl; [exact I|exact I|discriminate H]).
+    assert (Hflr : flat cr) by (destruct cl; destruct cr; try exact I; discriminate H).
+    assert (H' : classify_steps TKV P post = Some (t, c))
+      by (destruct cl; destruct cr; try exact H; contradiction).
+    clear H. rename H' into H.
     pose proof (classify_steps_nojoin _ _ _ _ Hpre) as Hnj_pre.
     pose proof (classify_steps_nojoin _ _ _ _ Hrs) as Hnj_rs.
     pose proof (classify_steps_nojoin _ _ _ _ H) as Hnj_post.
@@ -920,6 +1120,8 @@ Proof.
       rewrite src_node_source. cbn [map to_snode app]. rewrite !to_snode_NB. reflexivity.
     + exact Hclsl.
     + exact Hclsr.
+    + exact Hfll.
+    + exact Hflr.
     + exact Hclsp.
     + unfold denote. rewrite Hsz.
       rewrite (denote_steps_app pre (S f) _ _ Hnj_pre), denote_steps_join.
@@ -945,11 +1147,6 @@ Lemma classified_program_in_fragment : forall s steps t c,
     plan_cls (cs_chain (compile s steps)) t c /\ t = term_tag s steps.
 Proof.
   intros s steps t c H. destruct (classified_strong s steps t c H) as (H1 & H2 & _). auto.
-Qed.
-
-Lemma rel_trans : forall c a b d, rel c a b -> rel c b d -> rel c a d.
-Proof.
-  intros [|] a b d H1 H2; cbn [rel] in *; [congruence|eapply Permutation_trans; eassumption].
 Qed.
 
 Lemma program_par_equiv_seq : forall s steps t c parts,
